@@ -29,15 +29,17 @@ Prim == [ s1 |-> <<"acquire", "qlock">>, s3 |-> <<"release", "qlock">>,
           q1 |-> <<"acquire", "dlock">>, q2 |-> <<"acquire", "qlock">>,
           q4 |-> <<"release", "qlock">>, q5 |-> <<"release", "dlock">>,
           r2 |-> <<"acquire", "reslock">>, r4 |-> <<"release", "reslock">>,
-          p1 |-> <<"acquire", "plock">>, p3 |-> <<"notify", "plock">>,
+          p1 |-> <<"acquire", "plock">>, p2 |-> <<"pause_add", "">>,
+          p3 |-> <<"notify", "plock">>,
           p4 |-> <<"release", "plock">>,
           w1 |-> <<"acquire", "plock">>, w2 |-> <<"cond_wait", "plock">>,
           w3 |-> <<"cond_wake", "plock">>, w4 |-> <<"release", "plock">>,
-          c1 |-> <<"acquire", "plock">>, c3 |-> <<"notify", "plock">>,
+          c1 |-> <<"acquire", "plock">>, c2 |-> <<"pause_remove", "">>,
+          c3 |-> <<"notify", "plock">>,
           c4 |-> <<"acquire", "qlock">>, c5 |-> <<"notify_all", "qlock">>,
           c6 |-> <<"release", "qlock">>, c7 |-> <<"release", "plock">> ]
 Special == {"s5", "rq3", "r1", "r5", "q1b"}
-Silent == {"s0", "s2", "s11", "rq1", "rq5", "i0", "i1", "q3", "r3", "p2", "c2"}
+Silent == {"s0", "s2", "s11", "rq1", "rq5", "i0", "i1", "q3", "r3"}
 TagName(id) == "t" \o ToString(id[1] * 10 + id[2])
 
 Matches(lbl, e, self) ==
